@@ -243,6 +243,26 @@ Module HeapProofs (K : UsualOrderedTypeFull').
     - cbn. rewrite Nat.min_0_r. reflexivity.
   Qed.
 
+  Lemma desc_app_le a : forall b, desc (a ++ b) -> forall x y, In x b -> In y a -> K.le x y.
+  Proof.
+    induction a as [|z a IH]; intros b H x y Hx Hy; [destruct Hy|]. cbn in H. destruct H as [Hz Hd].
+    destruct Hy as [<-|Hy]; [apply Hz; apply in_or_app; right; exact Hx|eapply IH; eassumption].
+  Qed.
+  (* anything that was offered is either among the k kept keys or not above any of them *)
+  Lemma topk_optimal k l x : In x l ->
+    In x (topk k l) \/ (length (topk k l) = k /\ forall y, In y (topk k l) -> K.le x y).
+  Proof.
+    intro Hx. unfold Heap.topk. set (s := sortK l).
+    assert (Hs : In x s) by (eapply Permutation_in; [apply Permutation_sym, sortd_perm|exact Hx]).
+    rewrite <- (firstn_skipn k s) in Hs. apply in_app_or in Hs. destruct Hs as [Hs|Hs]; [left; exact Hs|right].
+    split.
+    - rewrite firstn_length. assert (length (skipn k s) <> 0) by (destruct (skipn k s); [destruct Hs|discriminate]).
+      rewrite skipn_length in H. lia.
+    - intros y Hy. apply (desc_app_le (firstn k s) (skipn k s)); [rewrite firstn_skipn; apply sortd_desc|exact Hs|exact Hy].
+  Qed.
+  Lemma topk_length k l : length (topk k l) = Nat.min k (length l).
+  Proof. unfold Heap.topk. rewrite firstn_length, length_sortd. reflexivity. Qed.
+
   (* ------------------------------------------------------------------ *)
   (* item level: arbitrary items compared through their key              *)
   Section Items.
